@@ -7,10 +7,12 @@ package codegen
 // "The example command never modifies a file that already exists": every file an example generator hands to
 // the renderer is marked SkipExist (File.Render leaves such a file alone when it exists: proved in package codegen).
 //@ func exampleCLI
+//@   params genpkg root svr
 //@   opt inline none
 //@   property C09
 //@   ensures* user.owned.file: result != nil ==> result.SkipExist
 //@ func exampleServer
+//@   params genpkg root svr
 //@   opt inline none
 //@   property C09
 //@   ensures* user.owned.file: result != nil ==> result.SkipExist
@@ -21,6 +23,7 @@ package codegen
 //@ func rpcTag
 //@   params a
 //@   property C10
+//@   locals tag:uint64 t:string ok:bool tn:uint64 err:error
 //@   ensures* the.validated.number: a != nil && inMap(a.Meta, "rpc:tag") && len(a.Meta["rpc:tag"]) >= 1 ==> result == parseUintSpec(a.Meta["rpc:tag"][len(a.Meta["rpc:tag"]) - 1])
 //@   modifies nothing
 
